@@ -58,7 +58,7 @@ let parse_call toks : call =
   | ["lcstart"; lc] -> KLcStart (ni lc)
   | ["lccollect"; lc; ls] -> KLcCollect (ni lc, ni ls)
   | ["lcdrop"; lc] -> KLcDrop (ni lc)
-  | ["pushc"; h; ls] -> KPushChild (ni h, ni ls)
+  | ["pushc"; h; ls] | ["pushc"; h; ls; "last"] -> KPushChild (ni h, ni ls)
   | ["torec"; ls; tr; sp] -> KToRecords (ni ls, nh tr, nh sp)
   | "swith" :: h :: rest -> KSWithProps (ni h, fst (parse_props rest))
   | "saddp" :: h :: rest -> KSAddProps (ni h, fst (parse_props rest))
